@@ -295,6 +295,7 @@ fn gen_tamper_continue(run: &mut Run, seed: u64, thorough: bool) {
 }
 
 fn run_tamper_continue(cfg: &HsCfg, k_alt: usize, field: usize, sc: &mut Sc, r: &mut Rng64) {
+    let cfg = &cfg.adapted();
     // honest pair, fixed script; message k_alt is altered in transit and NOT re-delivered
     let name = cfg.name();
     sc.ex.comment(&format!("tamper-continue {name} message {k_alt} field {field}"));
@@ -394,7 +395,7 @@ fn gen_builder_new(run: &mut Run, seed: u64, thorough: bool) {
     for (pi, p) in pats.iter().enumerate() {
         for rep in 0..(if thorough { 4 } else { 1 }) {
             let i = pi + rep * 11 + (seed as usize % 5);
-            let mut cfg = base_cfg(p, i, r.next(), true);
+            let mut cfg = base_cfg(p, i, r.next(), true).adapted();
             cfg.res_i = "default".into();
             cfg.res_r = "default".into();
             let name = cfg.name();
@@ -538,6 +539,7 @@ fn gen_mismatch(run: &mut Run, seed: u64, thorough: bool) {
 }
 
 fn run_mismatch(cfg: &HsCfg, kind: usize, slot: Option<usize>, sc: &mut Sc, r: &mut Rng64) -> bool {
+    let cfg = &cfg.adapted();
     let name = cfg.name();
     let inst = inst_of(&cfg.pattern, &cfg.psks).unwrap();
     let mut kr = Rng64(cfg.seed);
@@ -875,6 +877,7 @@ fn gen_threads(run: &mut Run, seed: u64, thorough: bool) {
     let mut sc = Sc::new();
     sc.ex.comment("threads: 8 threads share one StatelessTransportState (implementation only)");
     for res in ["default", "fb(ring,default)"] {
+        let res = &adapt_res(res);
         let mk = |initiator: bool| {
             let params: snow::params::NoiseParams = "Noise_NN_25519_ChaChaPoly_SHA256".parse().unwrap();
             let ek = [if initiator { 7u8 } else { 9u8 }; 32];
@@ -1170,7 +1173,7 @@ fn exec_line(ex: &mut Exec, line: &str) {
 }
 
 fn main() {
-    std::panic::set_hook(Box::new(|_| {}));
+    if std::env::var("SNOWH_PANICS").is_err() { std::panic::set_hook(Box::new(|_| {})); }
     let args: Vec<String> = std::env::args().collect();
     match args.get(1).map(String::as_str) {
         Some("dump") => print!("{}", dump()),
